@@ -868,6 +868,15 @@ func (g *gen) opHistoryQuery(histSubs int) {
 	if g.chance(0.15) {
 		kw.D = append(kw.D, KV{"topic", g.pick3(Str(g.pick(exactURIs)), URI("a.b"), Int('l', 3))})
 	}
+	if g.chance(0.12) && g.pubs > 0 {
+		// a topic filter together with ONE publication bound (which may name a
+		// publication on another topic of a pattern history): bounds first,
+		// then the filter
+		kw = Dict(KV{"topic", Str(g.pick([]string{"a", "a.b", "a.b.c", "b"}))},
+			KV{g.pick([]string{"from_publication", "after_publication", "before_publication", "until_publication"}),
+				PubRef(k, fmt.Sprintf("P%d", 1+g.r.IntN(g.pubs+1)))})
+		g.tag("history-topic-and-publication-bound")
+	}
 	id := Int(k, int64(1+g.r.IntN(histSubs+2)))
 	if g.chance(0.05) {
 		id = g.junk()
